@@ -10,6 +10,21 @@ use sourcemap::SourceView;
 use std::sync::{Arc, Condvar, Mutex};
 use std::time::{Duration, Instant};
 
+/// a thread's handle on the view: the shared one until the thread takes a clone ("clone" call), then its own
+struct Handle { shared: Arc<SourceView>, own: Option<SourceView> }
+impl Handle {
+    fn call(&mut self, c: &Value) -> Value {
+        if c["op"] == "clone" {
+            let cur: &SourceView = self.own.as_ref().unwrap_or(&self.shared);
+            let fresh = guard(|| { let _ = cur; json!({"k": "ok", "ret": 0}) });
+            let nv = std::panic::catch_unwind(std::panic::AssertUnwindSafe(|| cur.clone()));
+            match nv { Ok(v) => { self.own = Some(v); fresh } Err(_) => json!({"k": "panic", "msg": "clone"}) }
+        } else {
+            call_view(self.own.as_ref().unwrap_or(&self.shared), c)
+        }
+    }
+}
+
 #[derive(Clone, Copy, PartialEq, Debug)]
 enum St { Parked, Running, Done }
 
@@ -47,8 +62,9 @@ pub fn run_schedule(text: &str, calls: &[Vec<Value>], sched: &[usize], step_time
             let hook_sh = sh2.clone();
             sourcemap::verif::set_yield_hook(Some(Box::new(move |p| park(&hook_sh, t, p))));
             park(&sh2, t, 0); // wait for the first turn
+            let mut h = Handle { shared: view, own: None };
             for (j, c) in my_calls.iter().enumerate() {
-                let out = call_view(&view, c);
+                let out = h.call(c);
                 {
                     let (m, _) = &*sh2;
                     m.lock().unwrap().results.push((t, j, out));
@@ -154,7 +170,7 @@ pub fn run(case: &Value, em: &mut Emitter) {
             for (t, cs) in calls.iter().enumerate() {
                 let view = view.clone();
                 let cs = cs.clone();
-                hs.push(std::thread::spawn(move || cs.iter().enumerate().map(|(j, c)| (t, j, call_view(&view, c))).collect::<Vec<_>>()));
+                hs.push(std::thread::spawn(move || { let mut h = Handle { shared: view, own: None }; cs.iter().enumerate().map(|(j, c)| (t, j, h.call(c))).collect::<Vec<_>>() }));
             }
             let mut results = vec![];
             for h in hs { if let Ok(r) = h.join() { results.extend(r); } }
@@ -182,6 +198,7 @@ pub fn gen(rng: &mut Rng, size: usize) -> Value {
     let nlines = 1 + text.iter().filter(|&&c| c == 10 || c == 13).count() as i64;
     let calls: Vec<Vec<Value>> = (0..nthr).map(|_| (0..1 + rng.below(3)).map(|_| match rng.below(6) {
         0 => json!({"op": "line_count"}),
+        1 if rng.chance(1, 2) => json!({"op": "clone"}),      // the thread goes on with its own clone of the view
         1 => json!({"op": "lines"}),
         _ => json!({"op": "get_line", "i": rng.range(0, nlines + 1)}),
     }).collect()).collect();
